@@ -82,9 +82,69 @@ def esb_frame(address, payload, pid=0, no_ack=False, good_crc=True):
     return bytes([0xAA]) + bytes(address) + bytes([pcf >> 1]) + bytes(out)
 
 
-def mk_frame(rng, domain, k):
-    """a frame whose content carries the sequence number k (to observe order)"""
+def ble_crc24(pdu, init=0x555555):
+    """CRC of a BLE PDU as scapy's BTLE layer computes it when it builds a frame (3 bytes)"""
+    def swap(a):
+        return int("{:08b}".format(a)[::-1], 2)
+    state = swap(init & 0xff) + (swap((init >> 8) & 0xff) << 8) + (swap((init >> 16) & 0xff) << 16)
+    for i in pdu:
+        for _ in range(8):
+            nb = (state ^ i) & 1
+            i >>= 1
+            state >>= 1
+            if nb:
+                state |= 1 << 23
+                state ^= 0x5a6000
+    return struct.pack("<L", state)[:-1]
+
+
+BLE_ADV_AA = bytes.fromhex("d6be898e")       # BleDomain.format: BTLE(access_addr=0x8e89bed6) / BTLE_ADV
+BLE_DATA_AA = bytes.fromhex("44332211")      # BleDomain.format: BTLE(access_addr=0x11223344) / BTLE_DATA
+SIZES = {"ble": ["min", "adv-max", "data-251", "data-255"], "dot15d4": ["ack5", "len6", "len7", "max127"],
+         "esb": ["empty", "max32"], "unifying": ["empty", "max32"], "phy": ["one", "long"]}
+
+
+def boundary_frame(rng, domain, k, size):
+    """minimum / maximum length frames of each domain"""
+    rb = lambda n: bytes(rng.randrange(256) for _ in range(n))
+    if domain == "ble":
+        if size == "min":                       # empty data PDU: access address + 2-byte header + CRC = 9 bytes
+            return bytes([rng.randrange(1, 255) for _ in range(4)]) + bytes([0x01, 0x00]) + rb(3)
+        if size == "adv-max":                   # legacy advertising PDU, 37 bytes of payload
+            return BLE_ADV_AA + bytes([0x42, 37, k & 0xff]) + rb(36) + rb(3)
+        n = 251 if size == "data-251" else 255
+        return bytes([rng.randrange(1, 255) for _ in range(4)]) + bytes([0x02, n, k & 0xff]) + rb(n - 1) + rb(3)
+    if domain == "dot15d4":
+        body = {"ack5": bytes([0x02, 0x00, k & 0xff]),                      # ACK: frame control + sequence number
+                "len6": bytes([0x02, 0x00, k & 0xff]) + rb(1),
+                "len7": bytes([0x03, 0x08, k & 0xff]) + rb(2),
+                "max127": bytes([0x41, 0x88, k & 0xff]) + bytes.fromhex("34120000ffff") + rb(116)}[size]
+        return body + struct.pack("<H", fcs16(body))
+    if domain in ("esb", "unifying"):
+        addr = bytes([rng.randrange(0x80, 0x100)] + [rng.randrange(256) for _ in range(4)])
+        return esb_frame(addr, b"" if size == "empty" else bytes([k & 0xff]) + rb(31), pid=rng.randrange(4))
+    return bytes([k & 0xff]) if size == "one" else bytes([k & 0xff]) + rb(599)
+
+
+def mk_frame(rng, domain, k, size=None, shape=None):
+    """a frame whose content carries the sequence number k (to observe order).
+    `size`: a boundary length (SIZES); `shape`: the packet object handed to the monitor has no
+    link-layer header layer (BLE "adv" / "data": BTLE_ADV/... or BTLE_DATA/... as produced by
+    BleAdvPduReceived / BlePduReceived; 802.15.4 "nofcs": Dot15d4 without FCS) -- the frame is
+    then what format() must write: default access address + PDU + the CRC scapy computes."""
     tag = bytes([k & 0xff, (k >> 8) & 0xff])
+    if size is not None:
+        return boundary_frame(rng, domain, k, size)
+    if domain == "ble" and shape in ("adv", "data"):
+        if shape == "adv":
+            pdu = bytes([rng.choice([0x40, 0x00, 0x42, 0x46]), 6 + 3]) + tag + bytes(rng.randrange(256) for _ in range(4)) + bytes([2, 1, 6])
+            return BLE_ADV_AA + pdu + ble_crc24(pdu)
+        att = bytes([0x52, 0x03, 0x00]) + tag + bytes(rng.randrange(256) for _ in range(rng.randrange(0, 12)))
+        l2 = struct.pack("<HH", len(att), 4) + att
+        pdu = bytes([0x02, len(l2)]) + l2
+        return BLE_DATA_AA + pdu + ble_crc24(pdu)
+    if domain == "dot15d4" and shape == "nofcs":
+        return bytes([0x41, 0x88, k & 0xff]) + bytes.fromhex("34120000ffff") + tag + bytes(rng.randrange(256) for _ in range(rng.randrange(0, 20)))
     if domain == "ble":
         if rng.random() < 0.5:     # advertisement
             adva = tag + bytes(rng.randrange(256) for _ in range(4))
@@ -177,7 +237,8 @@ def mk_case(rng, domain, metas, kind, label):
         m = dict(m)
         if ts[k] is not None:
             m["ts"] = ts[k]
-        alts = [mk_frame(rng, domain, k).hex() for _ in range(3 if domain in ("esb", "unifying") else 1)]
+        size = m.pop("size", None)
+        alts = [mk_frame(rng, domain, k, size=size, shape=m.get("shape")).hex() for _ in range(3 if domain in ("esb", "unifying") else 1)]
         pkts.append({"frame": alts[0], "frames": alts, "meta": m})
     return {"domain": domain, "clock": nows, "pkts": pkts, "kind": kind, "label": label}
 
@@ -230,6 +291,33 @@ def gen_cases(ctx):
             c = mk_case(rng, d, [rand_meta(rng, d) for _ in range(n)], ["device", "mixed", "none"][j % 3], "append")
             c["split"] = rng.randrange(1, n)
             cases.append(c)
+        # frame-length boundaries: the shortest and the longest frames of the domain, between
+        # ordinary ones (every written packet must be replayed, in order)
+        for j in range(4 if ctx.thorough else 1):
+            metas = []
+            for sz in SIZES[d] * (2 if ctx.thorough else 1):
+                metas.append(dict(rand_meta(rng, d), size=sz))
+                metas.append(rand_meta(rng, d))
+            rng.shuffle(metas)
+            cases.append(mk_case(rng, d, metas, ["device", "mixed", "none", "device"][j % 4], "frame-length-boundaries"))
+        # packet shapes without link-layer header layer, as the non-raw message classes produce
+        # them (BleAdvPduReceived: BTLE_ADV/...; BlePduReceived: BTLE_DATA/...; 802.15.4 PduReceived:
+        # Dot15d4 without FCS), each metadata field present / absent
+        shapes = {"ble": ["adv", "data"], "dot15d4": ["nofcs"]}.get(d, [])
+        for sh in shapes:
+            metas = []
+            for c in (None, rng.choice(CHANNELS[d])):
+                for r_ in (None, rng.randrange(-128, 128)):
+                    for v in (None, True, False):
+                        for di in ((None, 1, 2, 0) if d == "ble" else (None,)):
+                            metas.append({k_: x for k_, x in (("channel", c), ("rssi", r_), ("valid", v), ("direction", di), ("shape", sh)) if x is not None})
+            if not ctx.thorough:
+                rng.shuffle(metas)
+                metas = metas[:14]
+            else:
+                metas += [dict(rand_meta(rng, d), shape=sh) for _ in range(40)]
+            cases.append(mk_case(rng, d, metas, "device", "shape-" + sh))
+            cases.append(mk_case(rng, d, [dict(rand_meta(rng, d), shape=sh) for _ in range(5)], "none", "shape-" + sh))
         # the connector is stopped and started again (or its sniffing mode re-enabled) in the
         # middle of the replay: start / k packets / stop / start / ... / rest
         for j in range(12 if ctx.thorough else 4):
@@ -858,6 +946,12 @@ def run(ctx):
                     k = "consistent" if pdu[1] == len(pdu) - 2 else ("pdu_longer_than_announced" if pdu[1] < len(pdu) - 2 else "pdu_shorter_than_announced")
                     dist["ble_frames_length_byte"][k] += 1
                     dist["ble_frames_length_byte"]["cp_bit_cteinfo"] += bool(pdu[0] & 0x20) and f[:4] != bytes.fromhex("d6be898e")
+    dist["labels"] = {}
+    for c in cases:
+        lab = c["label"].split(":")[0]
+        dist["labels"][lab] = dist["labels"].get(lab, 0) + len(c["pkts"])
+    dist["frame_lengths"] = {d_: [min(len(p["frame"]) // 2 for c in cases if c["domain"] == d_ for p in c["pkts"]),
+                                  max(len(p["frame"]) // 2 for c in cases if c["domain"] == d_ for p in c["pkts"])] for d_ in DOMAINS}
     dist["concurrent_writer_injections"] = {}
     for c, rs in zip(cases, res_cases):
         for _i, _j, what in (rs.get("concurrent") or {}).get("interleaved", []):
